@@ -13,6 +13,9 @@ def run(res):
     # multi-component creation and a non-integer explicit id
     K2 = wc.base(Acts=ACTS | {'create2'}, Ids={2, 101}, **wc.comps(C3))
     wc.check_and_replay(res, 'c01_create2', K2, own, depth_all=0, walks=1000)
+    # (B) recorded executions over larger pools (10 ids incl. non-integer ones, 10 components, diamond), validated by TLC
+    th = res.tier == 'thorough'
+    wc.trace_validate(res, 'c01_recorded', wc.big({'create', 'create2', 'add', 'remove', 'delete', 'process', 'clear'}), 2000 if th else 150, 60)
     # non-vacuity: the as-implemented branches violate the invariants
     wc.switch_run(res, 'c01', K, 'ReplaceBeforeIndex', ('IndexIsTranspose', 'QueriesAgree'))
     wc.switch_run(res, 'c01', K, 'AutoIdSkipsUsed', ('AutoIdFresh',))
